@@ -14,7 +14,7 @@ CONFIG = {
         "files": ["agreement/zz_verif_c40_test.go", "util/verifbounds/reg.go"],
         "util": [("agreement", "agreement")],
         "search_tier": "quick",   # violation search after a proof / correspondence break: more seeds of the quick mix
-        "env": {"quick": {"VERIF_C40_N": 30}, "thorough": {"VERIF_C40_N": 600}},
+        "env": {"quick": {"VERIF_C40_N": 30}, "thorough": {"VERIF_C40_N": 400}},
         "timeout": {"quick": 900, "thorough": 3000},
     }],
     "rule": "for each of the 54 root types (transactions.SignedTxn/Transaction/SignedTxnInBlock/ApplyData/EvalDelta/Payset, "
